@@ -6,12 +6,12 @@ ROOT = os.path.dirname(os.path.dirname(os.path.abspath(__file__)))
 CHECKS = {
  "C01": dict(
    technique="property-based testing: generated document sequences, validity predicate of every source document against the rendered struct tree",
-   text="Generated-input search (proptest-driven tape decoder, 60k sequences quick / 4M thorough) with a validity oracle that walks every source document against the struct tree read back from the rendering; finds counterexamples and shrinks them, cannot prove absence.",
+   text="Generated-input search (proptest-driven tape decoder, 60k sequences quick / 4M thorough) with a validity oracle that walks every source document against the struct tree read back from the rendering; finds counterexamples and shrinks them, cannot prove absence. Plus small-scope exhaustive enumeration (all ordered pairs/triples of small documents) and 728 enumerated size families (thresholds, colliding-name swarms, chains to depth 300).",
    note="Trusts the harness's reader of the rendered text (line reader cross-checked with syn) and the generator's DOM; domain restricted at pool level to names that do not clash after prefix removal.",
    ref="DESIGN.md §4 C01"),
  "C03": dict(
    technique="property-based testing: differential against an independent reference inference over the generator's DOM",
-   text="Generated-input search with a reference-model oracle (exact iff comparison of optionality, multiplicity, text flags, String typing, struct count) at two observation points (rendering and returned Element tree).",
+   text="Generated-input search with a reference-model oracle (exact iff comparison of optionality, multiplicity, text flags, String typing, struct count) at two observation points (rendering and returned Element tree). Plus small-scope exhaustive enumeration (pairs, triples, 4-tuples of small documents), attribute-list and threshold families (counts around 256, 1024, 65536) and 728 enumerated size families.",
    note="Trusts the 40-line reference inference and the rendered-output readers; sequences of up to 5 documents of up to ~40 nodes (60 in wide mode).",
    ref="DESIGN.md §4 C03"),
  "C15": dict(
@@ -21,17 +21,17 @@ CHECKS = {
    ref="DESIGN.md §4 C15"),
 "C04": dict(
    technique="property-based testing: adversarial name pools, output parsed with syn and checked by a well-formedness predicate",
-   text="Generated-input search over adversarial name sets; the rendering is parsed by syn (cross-checked with a strict line reader) and a validity predicate checks uniqueness/legality of struct and field names, field types and struct usage.",
+   text="Generated-input search over adversarial name sets; the rendering is parsed by syn (cross-checked with a strict line reader) and a validity predicate checks uniqueness/legality of struct and field names, field types and struct usage. Plus exhaustive enumeration of small documents and flat elements over colliding names and the 728 enumerated size families (n colliding struct names / identifiers, chains).",
    note="Trusts syn 2 as the syntax oracle (edition-2021 keywords); names restricted to XID characters plus - . : with a letter first.",
    ref="DESIGN.md §4 C04"),
  "C05": dict(
    technique="property-based testing: invariant over repetitions (in-process, threads, fresh processes), byte comparison",
-   text="Generated sequences weighted towards identifier collisions and multi-demotion; bytes of parse+extend+render compared over 8/16 in-process repetitions (fresh hash keys per HashMap), 4 threads, and 4/8 fresh processes.",
+   text="Generated sequences weighted towards identifier collisions and multi-demotion; bytes of parse+extend+render compared over 8/16 in-process repetitions (fresh hash keys per HashMap), 4 threads, and 4/8 fresh processes. Histories that render the tree after every document must end in the same bytes; plus exhaustive small documents and the 728 size families, each rendered six times.",
    note="Probabilistic: an exposed order dependence is missed with probability about 2^-(R-1) per exposing case.",
    ref="DESIGN.md §4 C05"),
  "C06": dict(
    technique="property-based testing over histories: algebraic laws (batch equivalence, permutation, idempotence, neutrality, monotonicity) on a schema abstraction plus reference model",
-   text="Generated histories parse/extend with repetitions, element-less inputs, permutations and damaged tails; laws checked after every step against the reference inference over the union and against the previous step.",
+   text="Generated histories parse/extend with repetitions, element-less inputs, permutations and damaged tails; laws checked after every step against the reference inference over the union and against the previous step. A re-supply family adds large single documents (an element seen 256 / 65536 times) supplied repeatedly.",
    note="Schema abstraction ignores field order, identifiers and struct names; expected verdict for damaged tails from an independent reader pass.",
    ref="DESIGN.md §4 C06"),
  "C07": dict(
@@ -46,7 +46,7 @@ CHECKS = {
    ref="DESIGN.md §4 C08"),
  "C09": dict(
    technique="property-based testing: reference first-appearance orders plus metamorphic relation between the two sort options",
-   text="Generated sequences; unsorted rendering compared with reference first-appearance orders, sorted rendering with ascending XML names, and both renderings must agree on everything but order.",
+   text="Generated sequences; unsorted rendering compared with reference first-appearance orders, sorted rendering with ascending XML names, and both renderings must agree on everything but order. Plus exhaustive pairs/triples of small documents, a sort-key family over tricky names and the 728 size families.",
    note="Relative order of common fields only; sort order = Rust String order of the full XML name.",
    ref="DESIGN.md §4 C09"),
  "C10": dict(
@@ -56,12 +56,12 @@ CHECKS = {
    ref="DESIGN.md §4 C10"),
  "C11": dict(
    technique="property-based metamorphic testing: one structure, two independent surface serialisations and reader shapes, byte-identical output",
-   text="Each structural model is serialised twice with independent surface choices (values, text/CDATA, comments, PIs, prolog, DOCTYPE, BOM, empty-element form) and read through different buffer shapes / expand_empty_elements; renderings must be identical.",
+   text="Each structural model is serialised twice with independent surface choices (values, text/CDATA, comments, PIs, prolog, DOCTYPE, BOM, empty-element form) and read through different buffer shapes / expand_empty_elements; renderings must be identical. Plus exhaustive pairs in two fixed surface forms, the 728 size families and occurrence thresholds (1000-1025, 4097) under the surface-variant oracle.",
    note="Empty CDATA is treated as structural; both variants well-formed.",
    ref="DESIGN.md §4 C11"),
  "C12": dict(
    technique="property-based testing of the CLI as a subprocess against the in-process library (differential) with injected input/output faults",
-   text="4000 (quick) / 80000 (thorough) process runs over input kinds x options x output kinds; exit status, stdout, stderr and output file bytes compared with header + library rendering or with the clean-failure contract.",
+   text="4000 (quick) / 80000 (thorough) process runs over input kinds x options x output kinds; exit status, stdout, stderr and output file bytes compared with header + library rendering or with the clean-failure contract. Plus a fixed buffer-boundary family (multi-byte characters around 4096..65536, outputs of exactly 4096/8192/16384 bytes); output paths include symbolic links and the input file itself.",
    note="Runs as root: permission faults replaced by structural faults; binary rebuilt from the working tree by ./check.",
    ref="DESIGN.md §4 C12"),
  "C14": dict(
@@ -71,17 +71,17 @@ CHECKS = {
    ref="DESIGN.md §4 C14"),
  "C16": dict(
    technique="stateful model-based testing: exhaustive operation sequences to a length bound plus random sequences, ordered-map model compared after every step",
-   text="All sequences of up to 4/5 operations from a 24-operation universe are enumerated, 60k/3M random sequences of up to 40 operations over three tree slots; every step compares trees with the model; renderings checked with the C04 oracle and against the model.",
+   text="All sequences of up to 4/5 operations from a 24-operation universe are enumerated, 60k/3M random sequences of up to 40 operations over three tree slots; every step compares trees with the model; renderings checked with the C04 oracle and against the model. Plus fixed deep chains and wide parents (up to 300) built through the public operations.",
    note="Internal child order not compared; duplicate-free attribute lists.",
    ref="DESIGN.md §4 C16"),
 "C02": dict(
    technique="property-based testing over programs: every generated program is compiled by rustc and executed against its own source documents (round-trip through quick_xml::de), value tree compared with the document",
-   text="512 (quick) / 16384 (thorough) generated programs, each compiled unchanged and with deny_unknown_fields, run against every source document; the deserialized value must hold every attribute value and text content; failures are shrunk with single-program compiles.",
+   text="512 (quick) / 16384 (thorough) generated programs, each compiled unchanged and with deny_unknown_fields, run against every source document; the deserialized value must hold every attribute value and text content; failures are shrunk with single-program compiles. One program in four is rendered with sort-by-name on top of the preset; the static stage also covers the enumerated size families in both orders.",
    note="Trusts rustc (stable 1.95, edition 2021), serde 1.0.229, quick-xml 0.37.5 with overlapped-lists; custom entities and CDATA blanks between children are outside the generator (deserializer limitations, documented).",
    ref="DESIGN.md §4 C02"),
  "C13": dict(
    technique="property-based testing over programs: compiled by rustc and executed through serde_xml_rs::from_str against the source documents; known finding excluded by construction and probed by a dedicated slice",
-   text="As C02 for the serde-xml-rs preset on namespace-free, adjacent-repeat, unmixed documents; the open finding (text of struct-typed elements dropped) is excluded by construction, one case in twenty probes it and must show exactly that signature.",
+   text="As C02 for the serde-xml-rs preset on namespace-free, adjacent-repeat, unmixed documents; the open finding (text of struct-typed elements dropped) is excluded by construction, one case in twenty probes it and must show exactly that signature. One program in four is rendered with sort-by-name on top of the preset; the static stage (with an admits check for the prefix-less preset) also covers the enumerated size families in both orders.",
    note="Trusts rustc, serde-xml-rs 0.6.0 / xml-rs 0.8; no processing instructions inside documents (xml-rs splits text around them).",
    ref="DESIGN.md §4 C13"),
 }
